@@ -355,7 +355,7 @@ def _ctc(draw, names, feats):
 
 
 METRIC_PROFILE = S.Profile(S.ident_or_dict_names(), single=("mandatory", "optional"),
-                           group=("alternative", "or", "mutex", "card"), layout="free", ctc_max=5, ctc_expr=_ctc)
+                           group=("alternative", "or", "mutex", "card"), layout="free", ctc_max=5, ctc_expr=_ctc, wide=True, simple_ops=logic.LOGICAL)
 
 
 @st.composite
